@@ -1,44 +1,908 @@
 /-
   Proofs/Lines.lean — lemmas about `remove_pure_action_lines` (Model/Lines.lean).
+
+  Structure: `linesLoop` is first turned into a fuel-free inductive relation `LinesRel`
+  (one constructor per branch of the loop, `collectLine` already decomposed); termination
+  (`removeLines_progress`) is proved on the function, everything else by induction on `LinesRel`.
 -/
 import YalafiVerif.Spec.Lines
 import YalafiVerif.Proofs.Utils
 namespace Yalafi
 
+/-! ### collectLine -/
+
+theorem collectLine_decomp (l : List LItem) (hl : l ≠ []) :
+    ∃ mid lst rest', l = mid ++ lst :: rest' ∧
+      (∀ i ∈ mid, i.blank = true ∧ i.ce = false) ∧
+      (lst.ce = false → lst.blank = true → rest' = []) ∧
+      collectLine l = (mid ++ [lst], rest', lst.ce || lst.blank) := by
+  induction l with
+  | nil => exact absurd rfl hl
+  | cons a as ih =>
+    by_cases hce : a.ce = true
+    · exact ⟨[], a, as, rfl, by simp, by simp [hce], by simp [collectLine, hce]⟩
+    · by_cases hb : a.blank = true
+      · by_cases has : as = []
+        · subst has
+          refine ⟨[], a, [], rfl, by simp, by simp, ?_⟩
+          simp [collectLine, hce, hb]
+        · obtain ⟨mid, lst, rest', e, hm, hx, hc⟩ := ih has
+          refine ⟨a :: mid, lst, rest', by simp [e], ?_, hx, ?_⟩
+          · intro i hi
+            simp only [List.mem_cons] at hi
+            rcases hi with rfl | hi
+            · exact ⟨hb, by simpa using hce⟩
+            · exact hm i hi
+          · simp [collectLine, hce, hb, hc]
+      · refine ⟨[], a, as, rfl, by simp, ?_, ?_⟩
+        · intro _ h; exact absurd h hb
+        · simp at hce hb
+          simp [collectLine, hce, hb]
+
+def sentItem (t2 : Tok) : LItem := { evalTok (sentinel t2.pos) with cs := true }
+
+theorem linesLoop_nil (fuel : Nat) (out : List Tok) : linesLoop fuel [] out = some out := by
+  cases fuel <;> rfl
+
+theorem linesLoop_skip (fuel : Nat) (t : LItem) (rest : List LItem) (out : List Tok)
+    (h : t.cs = false) : linesLoop (fuel+1) (t :: rest) out = linesLoop fuel rest (out ++ [t.tok]) := by
+  simp [linesLoop, h]
+
+theorem linesLoop_one (fuel : Nat) (t : LItem) (out : List Tok)
+    (h : t.cs = true) : linesLoop (fuel+1) [t] out = some (out ++ [t.tok]) := by
+  simp [linesLoop, h, collectLine, linesLoop_nil]
+
+theorem linesLoop_cs (fuel : Nat) (t : LItem) (mid : List LItem) (lst : LItem) (rest' : List LItem)
+    (out : List Tok) (h : t.cs = true)
+    (hc : collectLine (mid ++ lst :: rest') = (mid ++ [lst], rest', lst.ce || lst.blank)) :
+    linesLoop (fuel+1) (t :: (mid ++ lst :: rest')) out =
+      if ((lst.ce || lst.blank) && (t :: (mid ++ [lst])).any (fun i => isAction i.tok)) = true then
+        linesLoop fuel (sentItem (trimLast lst.tok) :: evalTok (trimLast lst.tok) :: rest')
+          (out ++ [trimFirst t.tok] ++ ((t :: (mid ++ [lst])).map (·.tok)).filter isLang)
+      else
+        linesLoop fuel (evalTok lst.tok :: rest') (out ++ (t :: mid).map (·.tok)) := by
+  rw [linesLoop]
+  simp only [h, hc, Bool.not_true, Bool.false_eq_true, if_false]
+  have hlen : (t :: (mid ++ [lst])).length > 1 := by simp
+  have hlast : ((t :: (mid ++ [lst])).getLast?.getD t) = lst := by
+    simp [List.getLast?_cons]
+  have hdl : (t :: (mid ++ [lst])).dropLast = t :: mid := by
+    rw [← List.cons_append, List.dropLast_concat]
+  simp only [hlast, hdl, hlen, decide_true, Bool.and_true, if_true, sentItem]
+
+
+/-! ### the loop as a relation (fuel-free) -/
+
+inductive LinesRel : List LItem → List Tok → Prop
+  | nil : LinesRel [] []
+  | skip (t : LItem) (rest : List LItem) (r : List Tok) :
+      t.cs = false → LinesRel rest r → LinesRel (t :: rest) (t.tok :: r)
+  | one (t : LItem) : t.cs = true → LinesRel [t] [t.tok]
+  | remove (t : LItem) (mid : List LItem) (lst : LItem) (rest' : List LItem) (r : List Tok) :
+      t.cs = true → (∀ i ∈ mid, i.blank = true ∧ i.ce = false) →
+      (lst.ce = false → lst.blank = true → rest' = []) →
+      (lst.ce || lst.blank) = true →
+      (t :: (mid ++ [lst])).any (fun i => isAction i.tok) = true →
+      LinesRel (sentItem (trimLast lst.tok) :: evalTok (trimLast lst.tok) :: rest') r →
+      LinesRel (t :: (mid ++ lst :: rest'))
+        (trimFirst t.tok :: (((t :: (mid ++ [lst])).map (·.tok)).filter isLang ++ r))
+  | keep (t : LItem) (mid : List LItem) (lst : LItem) (rest' : List LItem) (r : List Tok) :
+      t.cs = true → (∀ i ∈ mid, i.blank = true ∧ i.ce = false) →
+      (lst.ce = false → lst.blank = true → rest' = []) →
+      ((lst.ce || lst.blank) && (t :: (mid ++ [lst])).any (fun i => isAction i.tok)) = false →
+      LinesRel (evalTok lst.tok :: rest') r →
+      LinesRel (t :: (mid ++ lst :: rest')) (t.tok :: (mid.map (·.tok) ++ r))
+
+theorem linesLoop_rel (fuel : Nat) (items : List LItem) (out res : List Tok)
+    (h : linesLoop fuel items out = some res) : ∃ r, res = out ++ r ∧ LinesRel items r := by
+  induction fuel generalizing items out with
+  | zero =>
+    cases items with
+    | nil => simp [linesLoop] at h; exact ⟨[], by simp [h], .nil⟩
+    | cons t rest => simp [linesLoop] at h
+  | succ fuel ih =>
+    cases items with
+    | nil => simp [linesLoop] at h; exact ⟨[], by simp [h], .nil⟩
+    | cons t rest =>
+      by_cases hcs : t.cs = true
+      · by_cases hr : rest = []
+        · subst hr
+          rw [linesLoop_one _ _ _ hcs] at h
+          simp only [Option.some.injEq] at h
+          exact ⟨[t.tok], h.symm, .one t hcs⟩
+        · obtain ⟨mid, lst, rest', e, hm, hx, hc⟩ := collectLine_decomp rest hr
+          subst e
+          rw [linesLoop_cs _ _ _ _ _ _ hcs hc] at h
+          split at h
+          · rename_i hcond
+            obtain ⟨r, hr1, hr2⟩ := ih _ _ h
+            simp only [Bool.and_eq_true] at hcond
+            refine ⟨_, ?_, .remove t mid lst rest' r hcs hm hx hcond.1 hcond.2 hr2⟩
+            simp [hr1]
+          · rename_i hcond
+            obtain ⟨r, hr1, hr2⟩ := ih _ _ h
+            refine ⟨_, ?_, .keep t mid lst rest' r hcs hm hx (by simpa using hcond) hr2⟩
+            simp [hr1]
+      · have hcs' : t.cs = false := by simpa using hcs
+        rw [linesLoop_skip _ _ _ _ hcs'] at h
+        obtain ⟨r, hr1, hr2⟩ := ih _ _ h
+        exact ⟨t.tok :: r, by simp [hr1], .skip t rest r hcs' hr2⟩
+
+theorem removeLines_rel (ts out : List Tok) (hr : removeLines ts = some out) :
+    ∃ r, LinesRel (linesInit ts) r ∧ out = r.filter keepOut := by
+  unfold removeLines at hr
+  simp only [Option.map_eq_some_iff] at hr
+  obtain ⟨res, h1, h2⟩ := hr
+  obtain ⟨r, e, hrel⟩ := linesLoop_rel _ _ _ _ h1
+  exact ⟨r, hrel, by simp [← h2, e]⟩
+
+theorem getLast?_work (t : LItem) (mid : List LItem) (lst : LItem) (rest' : List LItem) :
+    (t :: (mid ++ lst :: rest')).getLast? = (lst :: rest').getLast? := by
+  rw [← List.cons_append, List.getLast?_append]
+  simp [List.getLast?_cons]
+
+theorem getLast?_two (a b : LItem) (rest' : List LItem) :
+    (a :: b :: rest').getLast? = (b :: rest').getLast? := by
+  simp [List.getLast?_cons_cons]
+
+theorem getLast?_swap (a b : LItem) (rest' : List LItem) (P : LItem → Prop)
+   (h : ∀ i, (a :: rest').getLast? = some i → P i) (hb : rest' = [] → P a → P b) :
+   ∀ i, (b :: rest').getLast? = some i → P i := by
+  cases rest' with
+  | nil => intro i hi; simp at hi; subst hi; exact hb rfl (h a (by simp))
+  | cons c cs => intro i hi; exact h i (by simpa [List.getLast?_cons_cons] using hi)
+
+@[simp] theorem evalTok_tok (t : Tok) : (evalTok t).tok = t := by
+  unfold evalTok; split <;> rfl
+
+@[simp] theorem isAction_trimLast (t : Tok) : isAction (trimLast t) = isAction t := rfl
+@[simp] theorem isLang_trimLast (t : Tok) : isLang (trimLast t) = isLang t := rfl
+@[simp] theorem isAction_trimFirst (t : Tok) : isAction (trimFirst t) = isAction t := rfl
+@[simp] theorem isLang_trimFirst (t : Tok) : isLang (trimFirst t) = isLang t := rfl
+@[simp] theorem isAction_sentinel (p : Nat) : isAction (sentinel p) = false := rfl
+@[simp] theorem isLang_sentinel (p : Nat) : isLang (sentinel p) = false := rfl
+@[simp] theorem sentItem_tok (t : Tok) : (sentItem t).tok = sentinel t.pos := by
+  simp [sentItem]
+@[simp] theorem sentinel_txt (p : Nat) : (sentinel p).txt = [] := rfl
+
+/-! ### progress -/
+
+def countAct (l : List LItem) : Nat := l.countP (fun i => isAction i.tok)
+
+def ActOK (i : LItem) : Prop := isAction i.tok = true → i.blank = true ∧ i.ce = false
+
+theorem ActOK_evalTok (t : Tok) : ActOK (evalTok t) := by
+  intro h
+  simp only [evalTok_tok] at h
+  simp [evalTok, h]
+
+theorem ActOK_of_not (i : LItem) (h : isAction i.tok = false) : ActOK i := by
+  intro h'; rw [h] at h'; cases h'
+
+def LastNA (l : List LItem) : Prop := ∀ i, l.getLast? = some i → isAction i.tok = false
+
+theorem countAct_pos_of_any (l : List LItem) (h : l.any (fun i => isAction i.tok) = true) :
+    0 < countAct l := by
+  unfold countAct
+  rw [List.countP_pos_iff]
+  simpa using h
+
+theorem linesLoop_progress (fuel : Nat) (items : List LItem) (out : List Tok)
+    (ha : ∀ i ∈ items, ActOK i) (hl : LastNA items)
+    (hf : countAct items + items.length ≤ fuel) : (linesLoop fuel items out).isSome = true := by
+  induction fuel generalizing items out with
+  | zero =>
+    cases items with
+    | nil => simp [linesLoop]
+    | cons t rest => simp at hf
+  | succ fuel ih =>
+    cases items with
+    | nil => simp [linesLoop]
+    | cons t rest =>
+      have hcount : countAct (t :: rest) = countAct rest + (if isAction t.tok then 1 else 0) := by
+        simp [countAct, List.countP_cons]
+      by_cases hcs : t.cs = true
+      · by_cases hr : rest = []
+        · subst hr; rw [linesLoop_one _ _ _ hcs]; rfl
+        · obtain ⟨mid, lst, rest', e, hm, hx, hc⟩ := collectLine_decomp rest hr
+          subst e
+          rw [linesLoop_cs _ _ _ _ _ _ hcs hc]
+          have hlast : LastNA (lst :: rest') := by
+            intro i hi; exact hl i (by rw [getLast?_work]; exact hi)
+          have hrest : ∀ i ∈ rest', ActOK i := fun i hi => ha i (by simp [hi])
+          have hcr : countAct (mid ++ lst :: rest') =
+              countAct mid + (if isAction lst.tok then 1 else 0) + countAct rest' := by
+            simp [countAct, List.countP_cons]; omega
+          split
+          · rename_i hcond
+            simp only [Bool.and_eq_true] at hcond
+            -- the last collected item is not an Action token
+            have hna : isAction lst.tok = false := by
+              by_cases hce : lst.ce = true
+              · cases hA : isAction lst.tok with
+                | false => rfl
+                | true =>
+                  have := (ha lst (by simp) hA).2
+                  rw [hce] at this; cases this
+              · have hce' : lst.ce = false := by simpa using hce
+                have hb : lst.blank = true := by simpa [hce'] using hcond.1
+                have := hx hce' hb
+                subst this
+                exact hlast lst (by simp)
+            apply ih
+            · intro i hi
+              simp only [List.mem_cons] at hi
+              rcases hi with rfl | rfl | hi
+              · exact ActOK_of_not _ (by simp)
+              · exact ActOK_evalTok _
+              · exact hrest i hi
+            · intro i hi
+              rw [getLast?_two] at hi
+              exact getLast?_swap lst (evalTok (trimLast lst.tok)) rest' _ hlast
+                (by intro _ _; simp [hna]) i hi
+            · have h1 : countAct (sentItem (trimLast lst.tok) :: evalTok (trimLast lst.tok) :: rest')
+                  = countAct rest' := by
+                simp [countAct, hna]
+              have h2 := countAct_pos_of_any _ hcond.2
+              have h3 : countAct (t :: (mid ++ [lst])) =
+                  countAct mid + (if isAction t.tok then 1 else 0) := by
+                simp [countAct, List.countP_cons, hna]
+              rw [h1]
+              rw [hcount, hcr] at hf
+              simp only [hna] at hf
+              simp only [List.length_cons, List.length_append] at hf ⊢
+              rw [h3] at h2
+              omega
+          · apply ih
+            · intro i hi
+              simp only [List.mem_cons] at hi
+              rcases hi with rfl | hi
+              · exact ActOK_evalTok _
+              · exact hrest i hi
+            · exact getLast?_swap lst (evalTok lst.tok) rest' _ hlast (by intro _ h; simpa using h)
+            · have h1 : countAct (evalTok lst.tok :: rest') =
+                  countAct rest' + (if isAction lst.tok then 1 else 0) := by
+                simp [countAct, List.countP_cons]
+              rw [h1]
+              rw [hcount, hcr] at hf
+              simp only [List.length_cons, List.length_append] at hf ⊢
+              omega
+      · have hcs' : t.cs = false := by simpa using hcs
+        rw [linesLoop_skip _ _ _ _ hcs']
+        apply ih
+        · exact fun i hi => ha i (by simp [hi])
+        · intro i hi
+          cases rest with
+          | nil => simp at hi
+          | cons c cs => exact hl i (by simpa [List.getLast?_cons_cons] using hi)
+        · rw [hcount] at hf
+          simp only [List.length_cons] at hf
+          omega
+
+def firstItem : LItem := { evalTok (sentinel 0) with cs := true }
+def lastItem (p : Nat) : LItem := { evalTok (sentinel p) with ce := true }
+
+theorem linesInit_eq (ts : List Tok) : ∃ p,
+    linesInit ts = firstItem :: ((ts.filter keepIn).map evalTok ++ [lastItem p]) := ⟨_, rfl⟩
+
+@[simp] theorem firstItem_tok : firstItem.tok = sentinel 0 := by simp [firstItem]
+@[simp] theorem lastItem_tok (p : Nat) : (lastItem p).tok = sentinel p := by simp [lastItem]
+
+theorem linesInit_ActOK (ts : List Tok) : ∀ i ∈ linesInit ts, ActOK i := by
+  obtain ⟨p, e⟩ := linesInit_eq ts
+  rw [e]
+  intro i hi
+  simp only [List.mem_cons, List.mem_append, List.mem_map, List.not_mem_nil, or_false] at hi
+  rcases hi with rfl | ⟨t, _, rfl⟩ | rfl
+  · exact ActOK_of_not _ (by simp)
+  · exact ActOK_evalTok _
+  · exact ActOK_of_not _ (by simp)
+
+theorem countAct_le (l : List LItem) : countAct l ≤ l.length := List.countP_le_length
+
 /-- the work list always shrinks: the fuel `2·len+4` is never exhausted -/
 theorem removeLines_progress (ts : List Tok) : (removeLines ts).isSome = true := by
-  sorry
+  unfold removeLines
+  simp only [Option.isSome_map]
+  apply linesLoop_progress
+  · exact linesInit_ActOK ts
+  · obtain ⟨p, e⟩ := linesInit_eq ts
+    intro i hi
+    rw [e, ← List.cons_append, List.getLast?_concat] at hi
+    simp only [Option.some.injEq] at hi
+    subst hi
+    simp
+  · have := countAct_le (linesInit ts)
+    omega
+
+/-! ### text lemmas -/
+
+theorem split_last (s : Str) : uptoLastNl s ++ afterLastNl s = s := by
+  unfold uptoLastNl afterLastNl
+  rw [← List.reverse_append, List.takeWhile_append_dropWhile, List.reverse_reverse]
+
+theorem split_first (s : Str) (h : hasNl s = true) :
+    beforeFirstNl s ++ nl :: afterFirstNl s = s := by
+  unfold beforeFirstNl afterFirstNl
+  induction s with
+  | nil => simp [hasNl] at h
+  | cons c cs ih =>
+    by_cases hc : c = nl
+    · subst hc; simp
+    · have : hasNl cs = true := by
+        simp only [hasNl, List.contains_cons] at h ⊢
+        have : (nl == c) = false := by simp; exact fun e => hc e.symm
+        simpa [this] using h
+      have hc' : (c != nl) = true := by simpa using hc
+      simp only [List.takeWhile_cons, hc', if_true, List.dropWhile_cons, List.cons_append]
+      rw [ih this]
+
+theorem hasNl_of_ne_nil_trimFirst (t : Tok) (h : (trimFirst t).txt ≠ []) : hasNl t.txt = true := by
+  unfold trimFirst at h
+  by_cases hn : hasNl t.txt = true
+  · exact hn
+  · simp [hn] at h
+
+theorem trimFirst_txt_length (t : Tok) : (trimFirst t).txt.length ≤ t.txt.length := by
+  unfold trimFirst
+  simp only []
+  split
+  · have := congrArg List.length (split_last t.txt)
+    simp only [List.length_append] at this
+    omega
+  · simp
+
+/-! ### range invariant -/
+
+def RangeOK (n : Nat) (t : Tok) : Prop := t.txt ≠ [] → TokInRange n t
+
+theorem RangeOK_sentinel (n p : Nat) : RangeOK n (sentinel p) := by
+  intro h; exact absurd rfl h
+
+theorem RangeOK_trimFirst (n : Nat) (t : Tok) (h : RangeOK n t) : RangeOK n (trimFirst t) := by
+  intro hne
+  have hl := trimFirst_txt_length t
+  have hne' : t.txt ≠ [] := by
+    intro e
+    rw [e] at hl
+    exact hne (List.eq_nil_of_length_eq_zero (by simpa using hl))
+  have := h hne'
+  unfold TokInRange at this ⊢
+  refine ⟨this.1, ?_⟩
+  intro hf
+  have := this.2 hf
+  show t.pos + (trimFirst t).txt.length ≤ n
+  omega
+
+theorem RangeOK_trimLast (n : Nat) (t : Tok) (h : RangeOK n t) : RangeOK n (trimLast t) := by
+  intro hne
+  by_cases hn : hasNl t.txt = true
+  · have hs := congrArg List.length (split_first t.txt hn)
+    simp only [List.length_append, List.length_cons] at hs
+    have hne' : t.txt ≠ [] := by
+      intro e; rw [e] at hn; simp [hasNl] at hn
+    have hr := h hne'
+    unfold TokInRange at hr ⊢
+    simp only [trimLast, hn, if_true] at hne ⊢
+    have hpos : 0 < (afterFirstNl t.txt).length := List.length_pos_iff.2 hne
+    cases hf : t.fix with
+    | true => simp [hr.1]
+    | false =>
+      have := hr.2 hf
+      simp only [Bool.false_eq_true, if_false]
+      constructor
+      · omega
+      · intro _; omega
+  · simp [trimLast, hn] at hne
+
+theorem LinesRel_inRange (n : Nat) (items : List LItem) (r : List Tok) (hrel : LinesRel items r)
+    (h : ∀ i ∈ items, RangeOK n i.tok) : ∀ t ∈ r, RangeOK n t := by
+  induction hrel with
+  | nil => simp
+  | skip t rest r hcs _ ih =>
+    intro x hx
+    simp only [List.mem_cons] at hx
+    rcases hx with rfl | hx
+    · exact h t (by simp)
+    · exact ih (fun i hi => h i (by simp [hi])) x hx
+  | one t hcs => intro x hx; simp at hx; subst hx; exact h t (by simp)
+  | remove t mid lst rest' r hcs hm hx hb hany _ ih =>
+    intro x hx'
+    simp only [List.mem_cons, List.mem_append, List.mem_filter, List.mem_map] at hx'
+    rcases hx' with rfl | ⟨⟨i, hi, rfl⟩, _⟩ | hx'
+    · exact RangeOK_trimFirst n _ (h t (by simp))
+    · apply h i
+      simp only [List.mem_cons, List.mem_append, List.not_mem_nil, or_false] at hi ⊢
+      rcases hi with rfl | hi | rfl <;> simp [*]
+    · refine ih ?_ x hx'
+      intro i hi
+      simp only [List.mem_cons] at hi
+      rcases hi with rfl | rfl | hi
+      · simpa using RangeOK_sentinel n _
+      · simpa using RangeOK_trimLast n _ (h lst (by simp))
+      · exact h i (by simp [hi])
+  | keep t mid lst rest' r hcs hm hx hb _ ih =>
+    intro x hx'
+    simp only [List.mem_cons, List.mem_append, List.mem_map] at hx'
+    rcases hx' with rfl | ⟨i, hi, rfl⟩ | hx'
+    · exact h t (by simp)
+    · exact h i (by simp [hi])
+    · refine ih ?_ x hx'
+      intro i hi
+      simp only [List.mem_cons] at hi
+      rcases hi with rfl | hi
+      · simpa using h lst (by simp)
+      · exact h i (by simp [hi])
 
 /-- range invariant (C01): tokens with text stay inside the source -/
 theorem removeLines_inRange (n : Nat) (ts out : List Tok)
     (h : ∀ t ∈ ts, t.txt ≠ [] → TokInRange n t) (hr : removeLines ts = some out) :
     ∀ t ∈ out, t.txt ≠ [] → TokInRange n t := by
-  sorry
+  obtain ⟨r, hrel, rfl⟩ := removeLines_rel ts out hr
+  intro t ht
+  simp only [List.mem_filter] at ht
+  refine LinesRel_inRange n _ r hrel ?_ t ht.1
+  obtain ⟨p, e⟩ := linesInit_eq ts
+  rw [e]
+  intro i hi
+  simp only [List.mem_cons, List.mem_append, List.mem_map, List.mem_filter, List.not_mem_nil, or_false] at hi
+  rcases hi with rfl | ⟨t, ht, rfl⟩ | rfl
+  · simpa using RangeOK_sentinel n _
+  · rw [evalTok_tok]; exact h t ht.1
+  · simpa using RangeOK_sentinel n _
 
-/-- without Action tokens the pass only drops empty tokens -/
-theorem removeLines_noaction_id (ts : List Tok) (h : ∀ t ∈ ts, isAction t = false) :
-    removeLines ts = some (ts.filter keepOut) := by
-  sorry
-
-/-- no visible character is lost, duplicated, reordered or re-positioned (C02/C05) -/
-theorem removeLines_nonblank (ts out : List Tok) (hr : removeLines ts = some out) :
-    nonBlankPairs (getTxtPos out) = nonBlankPairs (getTxtPos ts) := by
-  sorry
-
-/-- the output text is the input text with some characters deleted (all of them white
-    space, by `removeLines_nonblank`) -/
-theorem removeLines_sublist (ts out : List Tok) (hr : removeLines ts = some out) :
-    List.Sublist (getTxtPos out).1 (getTxtPos ts).1 := by
-  sorry
-
-/-- language tokens survive, in order (C12) -/
-theorem removeLines_lang (ts out : List Tok) (hr : removeLines ts = some out) :
-    out.filter isLang = ts.filter isLang := by
-  sorry
+/-! ### kinds -/
 
 /-- nothing but text and language tokens leaves the pass: no Action token, no empty token -/
 theorem removeLines_kinds (ts out : List Tok) (hr : removeLines ts = some out) :
     ∀ t ∈ out, t.txt ≠ [] ∨ isLang t = true := by
-  sorry
+  obtain ⟨r, _, rfl⟩ := removeLines_rel ts out hr
+  intro t ht
+  simp only [List.mem_filter, keepOut, Bool.or_eq_true, Bool.not_eq_eq_eq_not, Bool.not_true,
+    List.isEmpty_eq_false_iff] at ht
+  exact ht.2
+
+theorem LinesRel_noaction (items : List LItem) (r : List Tok) (hrel : LinesRel items r)
+    (h : ∀ i ∈ items, isAction i.tok = false) : r = items.map (·.tok) := by
+  induction hrel with
+  | nil => rfl
+  | skip t rest r hcs _ ih => simp [ih (fun i hi => h i (by simp [hi]))]
+  | one t hcs => rfl
+  | remove t mid lst rest' r hcs hm hx hb hany _ ih =>
+    exfalso
+    simp only [List.any_eq_true] at hany
+    obtain ⟨i, hi, hA⟩ := hany
+    have : i ∈ t :: (mid ++ lst :: rest') := by
+      simp only [List.mem_cons, List.mem_append, List.not_mem_nil, or_false] at hi ⊢
+      rcases hi with rfl | hi | rfl <;> simp [*]
+    rw [h i this] at hA
+    cases hA
+  | keep t mid lst rest' r hcs hm hx hb _ ih =>
+    have := ih (by
+      intro i hi
+      simp only [List.mem_cons] at hi
+      rcases hi with rfl | hi
+      · simpa using h lst (by simp)
+      · exact h i (by simp [hi]))
+    simp [this]
+
+@[simp] theorem keepOut_sentinel (p : Nat) : keepOut (sentinel p) = false := rfl
+
+/-- without Action tokens the pass only drops empty tokens -/
+theorem removeLines_noaction_id (ts : List Tok) (h : ∀ t ∈ ts, isAction t = false) :
+    removeLines ts = some (ts.filter keepOut) := by
+  have hp := removeLines_progress ts
+  cases hr : removeLines ts with
+  | none => rw [hr] at hp; cases hp
+  | some out =>
+    obtain ⟨r, hrel, rfl⟩ := removeLines_rel ts out hr
+    obtain ⟨p, e⟩ := linesInit_eq ts
+    rw [e] at hrel
+    have := LinesRel_noaction _ r hrel (by
+      intro i hi
+      simp only [List.mem_cons, List.mem_append, List.mem_map, List.mem_filter, List.not_mem_nil,
+        or_false] at hi
+      rcases hi with rfl | ⟨t, ht, rfl⟩ | rfl
+      · simp
+      · simpa using h t ht.1
+      · simp)
+    subst this
+    simp only [List.map_cons, List.map_append, List.map_map, List.map_nil, firstItem_tok,
+      lastItem_tok, List.filter_cons, keepOut_sentinel, Bool.false_eq_true, if_false,
+      List.filter_append, List.filter_nil, List.append_nil, Option.some.injEq]
+    have e2 : List.map ((fun x => x.tok) ∘ evalTok) (List.filter keepIn ts) = List.filter keepIn ts := by
+      rw [show ((fun x : LItem => x.tok) ∘ evalTok) = id from by funext t; simp]
+      simp
+    rw [e2, List.filter_filter]
+    apply List.filter_congr
+    intro t _
+    simp only [keepOut, keepIn]
+    cases t.txt.isEmpty <;> cases isLang t <;> simp
+
+/-! ### visible pairs and text of token lists -/
+
+def vis (s : Str) (ps : List Nat) : List (Char × Nat) := (s.zip ps).filter (fun cp => !isSpace cp.1)
+
+def posOf (fix : Bool) (pos len : Nat) : List Nat :=
+  if fix then List.replicate len pos else (List.range len).map (pos + ·)
+
+theorem posOf_length (fix : Bool) (pos len : Nat) : (posOf fix pos len).length = len := by
+  unfold posOf; split <;> simp
+
+theorem posOf_add (fix : Bool) (pos a b : Nat) :
+    posOf fix pos (a + b) = posOf fix pos a ++ posOf fix (if fix then pos else pos + a) b := by
+  unfold posOf
+  cases fix with
+  | true => simp [List.replicate_append_replicate]
+  | false =>
+    simp only [Bool.false_eq_true, if_false, List.range_add, List.map_append, List.map_map]
+    congr 1
+    apply List.map_congr_left
+    intro x _
+    simp [Nat.add_assoc]
+
+theorem tokPositions_eq (t : Tok) : tokPositions t = posOf t.fix t.pos t.txt.length := rfl
+
+theorem vis_append (s1 s2 : Str) (p1 p2 : List Nat) (h : s1.length = p1.length) :
+    vis (s1 ++ s2) (p1 ++ p2) = vis s1 p1 ++ vis s2 p2 := by
+  simp [vis, List.zip_append h]
+
+theorem vis_blank (s : Str) (ps : List Nat) (h : isBlank s = true) : vis s ps = [] := by
+  unfold vis
+  rw [List.filter_eq_nil_iff]
+  intro cp hcp
+  have := (List.of_mem_zip hcp).1
+  unfold isBlank at h
+  rw [List.all_eq_true] at h
+  simp [h _ this]
+
+def visTok (t : Tok) : List (Char × Nat) := vis t.txt (tokPositions t)
+def Vis (ts : List Tok) : List (Char × Nat) := nonBlankPairs (getTxtPos ts)
+def Txt (ts : List Tok) : Str := (getTxtPos ts).1
+
+@[simp] theorem Vis_nil : Vis [] = [] := rfl
+@[simp] theorem Txt_nil : Txt [] = [] := rfl
+@[simp] theorem Txt_cons (t : Tok) (ts : List Tok) : Txt (t :: ts) = t.txt ++ Txt ts := rfl
+@[simp] theorem Vis_cons (t : Tok) (ts : List Tok) : Vis (t :: ts) = visTok t ++ Vis ts := by
+  have := vis_append t.txt (getTxtPos ts).1 (tokPositions t) (getTxtPos ts).2 (tokPositions_length t).symm
+  simpa [Vis, nonBlankPairs, getTxtPos, visTok, vis] using this
+@[simp] theorem Txt_append (a b : List Tok) : Txt (a ++ b) = Txt a ++ Txt b := by
+  simp [Txt, getTxtPos_append]
+@[simp] theorem Vis_append (a b : List Tok) : Vis (a ++ b) = Vis a ++ Vis b := by
+  induction a with
+  | nil => simp
+  | cons t ts ih => simp [ih]
+
+theorem visTok_split (t : Tok) (u a : Str) (h : t.txt = u ++ a) :
+    visTok t = vis u (posOf t.fix t.pos u.length) ++
+      vis a (posOf t.fix (if t.fix then t.pos else t.pos + u.length) a.length) := by
+  unfold visTok
+  rw [tokPositions_eq, h, List.length_append, posOf_add, vis_append _ _ _ _ (posOf_length ..).symm]
+
+theorem visTok_blank (t : Tok) (h : isBlank t.txt = true) : visTok t = [] := vis_blank _ _ h
+
+theorem isBlank_nil : isBlank [] = true := rfl
+
+theorem isBlank_append (a b : Str) : isBlank (a ++ b) = (isBlank a && isBlank b) := by
+  simp [isBlank]
+
+/-- what `trimFirst` needs: the dropped tail is blank -/
+def TFOK (t : Tok) : Prop :=
+  (hasNl t.txt = true → isBlank (afterLastNl t.txt) = true) ∧ (hasNl t.txt = false → isBlank t.txt = true)
+/-- what `trimLast` needs: the dropped head is blank -/
+def TLOK (t : Tok) : Prop :=
+  (hasNl t.txt = true → isBlank (beforeFirstNl t.txt) = true) ∧ (hasNl t.txt = false → isBlank t.txt = true)
+
+theorem visTok_trimFirst (t : Tok) (h : TFOK t) : visTok (trimFirst t) = visTok t := by
+  cases hn : hasNl t.txt with
+  | true =>
+    rw [visTok_split t _ _ (split_last t.txt).symm, vis_blank _ _ (h.1 hn), List.append_nil]
+    simp [visTok, tokPositions_eq, trimFirst, hn]
+  | false =>
+    rw [visTok_blank t (h.2 hn)]
+    simp [visTok, trimFirst, hn, vis]
+
+theorem visTok_trimLast (t : Tok) (h : TLOK t) : visTok (trimLast t) = visTok t := by
+  cases hn : hasNl t.txt with
+  | true =>
+    have e : t.txt = (beforeFirstNl t.txt ++ [nl]) ++ afterFirstNl t.txt := by
+      simpa using (split_first t.txt hn).symm
+    have hb : isBlank (beforeFirstNl t.txt ++ [nl]) = true := by
+      rw [isBlank_append, h.1 hn]; decide
+    rw [visTok_split t _ _ e, vis_blank _ _ hb, List.nil_append]
+    simp only [visTok, tokPositions_eq, trimLast, hn, if_true, List.length_append, List.length_singleton]
+  | false =>
+    rw [visTok_blank t (h.2 hn)]
+    simp [visTok, trimLast, hn, vis]
+
+theorem txt_trimFirst_sublist (t : Tok) : List.Sublist (trimFirst t).txt t.txt := by
+  cases hn : hasNl t.txt with
+  | true =>
+    simp only [trimFirst, hn, if_true]
+    conv => rhs; rw [← split_last t.txt]
+    exact List.sublist_append_left _ _
+  | false => simp [trimFirst, hn]
+
+theorem txt_trimLast_sublist (t : Tok) : List.Sublist (trimLast t).txt t.txt := by
+  cases hn : hasNl t.txt with
+  | true =>
+    simp only [trimLast, hn, if_true]
+    conv => rhs; rw [← split_first t.txt hn]
+    exact List.sublist_append_of_sublist_right (List.sublist_cons_self _ _)
+  | false => simp [trimLast, hn]
+
+theorem getTxtPos_empty (l : List Tok) (h : ∀ t ∈ l, t.txt = []) : Vis l = [] ∧ Txt l = [] := by
+  induction l with
+  | nil => simp
+  | cons t ts ih =>
+    have := ih (fun x hx => h x (by simp [hx]))
+    have ht := h t (by simp)
+    simp [this, ht, visTok, vis]
+
+theorem Vis_blank_list (l : List Tok) (h : ∀ t ∈ l, isBlank t.txt = true) : Vis l = [] := by
+  induction l with
+  | nil => simp
+  | cons t ts ih =>
+    simp [ih (fun x hx => h x (by simp [hx])), visTok_blank t (h t (by simp))]
+
+/-! ### item invariant under the class invariant "Action/Language tokens have no text" -/
+
+def CtlEmpty (t : Tok) : Prop := (isAction t = true ∨ isLang t = true) → t.txt = []
+
+structure ItemOK (i : LItem) : Prop where
+  ctl : CtlEmpty i.tok
+  blank : i.blank = true → isBlank i.tok.txt = true
+  cs : i.cs = true → TFOK i.tok ∧ isLang i.tok = false
+  ce : i.ce = true → TLOK i.tok ∧ isLang i.tok = false
+
+theorem hasNl_nil : hasNl [] = false := rfl
+
+theorem isBlank_beforeFirstNl (s : Str) (h : isBlank s = true) : isBlank (beforeFirstNl s) = true := by
+  unfold isBlank beforeFirstNl at *
+  rw [List.all_eq_true] at h ⊢
+  intro x hx
+  exact h x ((List.takeWhile_sublist _).subset hx)
+
+theorem TLOK_of_blank (t : Tok) (h : isBlank t.txt = true) : TLOK t :=
+  ⟨fun _ => isBlank_beforeFirstNl _ h, fun _ => h⟩
+
+theorem TFOK_of_nil (t : Tok) (h : t.txt = []) : TFOK t := by
+  constructor <;> intro _ <;> simp [h, afterLastNl, isBlank]
+
+theorem ItemOK_evalTok (t : Tok) (h : CtlEmpty t) : ItemOK (evalTok t) := by
+  have hl : hasNl t.txt = true → isLang t = false := by
+    intro hn
+    cases hL : isLang t with
+    | false => rfl
+    | true => rw [h (Or.inr hL)] at hn; cases hn
+  unfold evalTok
+  split
+  · rename_i hA
+    have := h (Or.inl hA)
+    exact ⟨h, by simp [this, isBlank], by simp, by simp⟩
+  · refine ⟨h, ?_, ?_, ?_⟩
+    · simp only [Bool.and_eq_true]; exact fun h => h.2
+    · simp only [Bool.and_eq_true]
+      intro ⟨h1, h2⟩
+      exact ⟨⟨fun _ => h2, fun h3 => by rw [h1] at h3; cases h3⟩, hl h1⟩
+    · simp only [Bool.and_eq_true]
+      intro ⟨h1, h2⟩
+      exact ⟨⟨fun _ => h2, fun h3 => by rw [h1] at h3; cases h3⟩, hl h1⟩
+
+theorem ItemOK_of_sentinel (i : LItem) (p : Nat) (h : i.tok = sentinel p) : ItemOK i := by
+  have hb : isBlank i.tok.txt = true := by rw [h]; rfl
+  have hL : isLang i.tok = false := by rw [h]; rfl
+  refine ⟨?_, fun _ => hb, fun _ => ⟨TFOK_of_nil _ (by rw [h]; rfl), hL⟩, fun _ => ⟨TLOK_of_blank _ hb, hL⟩⟩
+  intro _; rw [h]; rfl
+
+theorem CtlEmpty_trimLast (t : Tok) (h : CtlEmpty t) : CtlEmpty (trimLast t) := by
+  intro hk
+  have := h hk
+  simp [trimLast, this, hasNl_nil]
+
+def LastNL (l : List LItem) : Prop := ∀ i, l.getLast? = some i → isLang i.tok = false
+
+theorem LinesRel_main (items : List LItem) (r : List Tok) (hrel : LinesRel items r)
+    (hok : ∀ i ∈ items, ItemOK i) (hlast : LastNL items) :
+    Vis r = Vis (items.map (·.tok)) ∧ List.Sublist (Txt r) (Txt (items.map (·.tok))) ∧
+    r.filter isLang = (items.map (·.tok)).filter isLang := by
+  induction hrel with
+  | nil => simp
+  | skip t rest r hcs _ ih =>
+    have := ih (fun i hi => hok i (by simp [hi])) (by
+      intro i hi
+      cases rest with
+      | nil => simp at hi
+      | cons c cs => exact hlast i (by simpa [List.getLast?_cons_cons] using hi))
+    simp only [List.map_cons, Vis_cons, Txt_cons, List.filter_cons, this.1, this.2.2]
+    exact ⟨trivial, List.Sublist.append_left this.2.1 _, trivial⟩
+  | one t hcs => simp
+  | remove t mid lst rest' r hcs hm hx hb hany _ ih =>
+    have hl' : LastNL (lst :: rest') := by
+      intro i hi; exact hlast i (by rw [getLast?_work]; exact hi)
+    have hokl := hok lst (by simp)
+    have hokt := hok t (by simp)
+    -- the last collected token: its dropped head is blank, and it is no Language token
+    have hlst : TLOK lst.tok ∧ isLang lst.tok = false := by
+      by_cases hce : lst.ce = true
+      · exact hokl.ce hce
+      · have hce' : lst.ce = false := by simpa using hce
+        have hbl : lst.blank = true := by simpa [hce'] using hb
+        have := hx hce' hbl
+        subst this
+        exact ⟨TLOK_of_blank _ (hokl.blank hbl), hl' lst (by simp)⟩
+    have hmid : ∀ x ∈ mid.map (·.tok), isBlank x.txt = true := by
+      intro x hx'
+      simp only [List.mem_map] at hx'
+      obtain ⟨i, hi, rfl⟩ := hx'
+      exact (hok i (by simp [hi])).blank (hm i hi).1
+    have hlangs : ∀ x ∈ ((t :: (mid ++ [lst])).map (·.tok)).filter isLang, x.txt = [] := by
+      intro x hx'
+      simp only [List.mem_filter, List.mem_map] at hx'
+      obtain ⟨⟨i, hi, rfl⟩, hL⟩ := hx'
+      refine (hok i ?_).ctl (Or.inr hL)
+      simp only [List.mem_cons, List.mem_append, List.not_mem_nil, or_false] at hi ⊢
+      rcases hi with rfl | hi | rfl <;> simp [*]
+    have ih' := ih (by
+      intro i hi
+      simp only [List.mem_cons] at hi
+      rcases hi with rfl | rfl | hi
+      · exact ItemOK_of_sentinel _ _ (sentItem_tok _)
+      · exact ItemOK_evalTok _ (CtlEmpty_trimLast _ hokl.ctl)
+      · exact hok i (by simp [hi])) (by
+      intro i hi
+      rw [getLast?_two] at hi
+      exact getLast?_swap lst (evalTok (trimLast lst.tok)) rest' _ hl'
+        (by intro _ _; simp [hlst.2]) i hi)
+    obtain ⟨ih1, ih2, ih3⟩ := ih'
+    have he := getTxtPos_empty _ hlangs
+    have hvs : visTok (sentinel (trimLast lst.tok).pos) = [] := rfl
+    refine ⟨?_, ?_, ?_⟩
+    · generalize ((t :: (mid ++ [lst])).map (·.tok)).filter isLang = langs at he
+      simp only [Vis_cons, Vis_append, he.1, ih1, List.map_cons, List.map_append, sentItem_tok,
+        evalTok_tok, hvs, Vis_blank_list _ hmid, visTok_trimFirst _ (hokt.cs hcs).1,
+        visTok_trimLast _ hlst.1, List.nil_append]
+    · generalize ((t :: (mid ++ [lst])).map (·.tok)).filter isLang = langs at he
+      simp only [Txt_cons, Txt_append, he.2, List.map_cons, List.map_append, List.nil_append]
+      simp only [List.map_cons, Txt_cons, sentItem_tok, evalTok_tok, sentinel_txt,
+        List.nil_append] at ih2
+      apply List.Sublist.append (txt_trimFirst_sublist _)
+      apply List.sublist_append_of_sublist_right
+      exact ih2.trans (List.Sublist.append_right (txt_trimLast_sublist _) _)
+    · have hLt := (hokt.cs hcs).2
+      simp only [List.map_cons, List.filter_cons, sentItem_tok, evalTok_tok, isLang_sentinel,
+        isLang_trimLast, hlst.2, Bool.false_eq_true, if_false] at ih3
+      simp only [List.filter_cons, isLang_trimFirst, hLt, Bool.false_eq_true, if_false,
+        List.filter_append, List.filter_filter, Bool.and_self, ih3, List.map_cons, List.map_append,
+        List.map_nil, hlst.2, List.filter_nil, List.append_nil]
+  | keep t mid lst rest' r hcs hm hx hb _ ih =>
+    have hl' : LastNL (lst :: rest') := by
+      intro i hi; exact hlast i (by rw [getLast?_work]; exact hi)
+    have hokl := hok lst (by simp)
+    have ih' := ih (by
+      intro i hi
+      simp only [List.mem_cons] at hi
+      rcases hi with rfl | hi
+      · exact ItemOK_evalTok _ hokl.ctl
+      · exact hok i (by simp [hi]))
+      (getLast?_swap lst (evalTok lst.tok) rest' _ hl' (by intro _ h; simpa using h))
+    obtain ⟨ih1, ih2, ih3⟩ := ih'
+    simp only [List.map_cons, evalTok_tok] at ih1 ih2 ih3
+    refine ⟨?_, ?_, ?_⟩
+    · simp [ih1]
+    · simp only [Txt_cons, Txt_append, List.map_cons, List.map_append]
+      exact List.Sublist.append_left (List.Sublist.append_left (by simpa using ih2) _) _
+    · simp only [List.map_cons, List.map_append]
+      rw [← List.cons_append, ← List.cons_append, List.filter_append, List.filter_append, ih3]
+
+theorem filter_txt (f : Tok → Bool) (hf : ∀ t, f t = false → t.txt = []) (l : List Tok) :
+    Vis (l.filter f) = Vis l ∧ Txt (l.filter f) = Txt l := by
+  induction l with
+  | nil => simp
+  | cons t ts ih =>
+    cases h : f t with
+    | true => simp [h, ih.1, ih.2]
+    | false => simp [h, ih.1, ih.2, hf t h, visTok, vis]
+
+theorem keepOut_txt (t : Tok) (h : keepOut t = false) : t.txt = [] := by
+  simp only [keepOut, Bool.or_eq_false_iff, Bool.not_eq_eq_eq_not, Bool.not_false,
+    List.isEmpty_iff] at h
+  exact h.1
+
+theorem keepIn_txt (t : Tok) (h : keepIn t = false) : t.txt = [] := by
+  simp only [keepIn, Bool.or_eq_false_iff, Bool.not_eq_eq_eq_not, Bool.not_false,
+    List.isEmpty_iff] at h
+  exact h.1.1
+
+theorem filter_isLang_keep (f : Tok → Bool) (hf : ∀ t, isLang t = true → f t = true) (l : List Tok) :
+    (l.filter f).filter isLang = l.filter isLang := by
+  rw [List.filter_filter]
+  apply List.filter_congr
+  intro t _
+  cases h : isLang t with
+  | false => simp
+  | true => simp [hf t h]
+
+theorem linesInit_toks (ts : List Tok) : ∃ p,
+    (linesInit ts).map (·.tok) = sentinel 0 :: (ts.filter keepIn ++ [sentinel p]) := by
+  obtain ⟨p, e⟩ := linesInit_eq ts
+  refine ⟨p, ?_⟩
+  rw [e]
+  simp only [List.map_cons, List.map_append, List.map_map, List.map_nil, firstItem_tok, lastItem_tok]
+  rw [show ((fun x : LItem => x.tok) ∘ evalTok) = id from by funext t; simp]
+  simp
+
+/-- everything the relational invariant gives for `removeLines` -/
+theorem removeLines_main (ts out : List Tok)
+    (hc : ∀ t ∈ ts, (isAction t = true ∨ isLang t = true) → t.txt = [])
+    (hr : removeLines ts = some out) :
+    Vis out = Vis ts ∧ List.Sublist (Txt out) (Txt ts) ∧ out.filter isLang = ts.filter isLang := by
+  obtain ⟨r, hrel, rfl⟩ := removeLines_rel ts out hr
+  obtain ⟨p, e⟩ := linesInit_eq ts
+  have hok : ∀ i ∈ linesInit ts, ItemOK i := by
+    rw [e]
+    intro i hi
+    simp only [List.mem_cons, List.mem_append, List.mem_map, List.mem_filter, List.not_mem_nil,
+      or_false] at hi
+    rcases hi with rfl | ⟨t, ht, rfl⟩ | rfl
+    · exact ItemOK_of_sentinel _ _ firstItem_tok
+    · exact ItemOK_evalTok _ (hc t ht.1)
+    · exact ItemOK_of_sentinel _ _ (lastItem_tok p)
+  have hlast : LastNL (linesInit ts) := by
+    intro i hi
+    rw [e, ← List.cons_append, List.getLast?_concat] at hi
+    simp only [Option.some.injEq] at hi
+    subst hi
+    simp
+  obtain ⟨h1, h2, h3⟩ := LinesRel_main _ r hrel hok hlast
+  obtain ⟨p', e'⟩ := linesInit_toks ts
+  rw [e'] at h1 h2 h3
+  have fo := filter_txt keepOut keepOut_txt r
+  have fi := filter_txt keepIn keepIn_txt ts
+  have hvs : ∀ q, visTok (sentinel q) = [] := fun _ => rfl
+  refine ⟨?_, ?_, ?_⟩
+  · rw [fo.1, h1]
+    simp [hvs, fi.1]
+  · rw [fo.2]
+    simpa [fi.2] using h2
+  · rw [filter_isLang_keep keepOut (by intro t h; simp [keepOut, h]), h3]
+    simp only [List.filter_cons, isLang_sentinel, Bool.false_eq_true, if_false, List.filter_append,
+      List.filter_nil, List.append_nil]
+    exact filter_isLang_keep keepIn (by intro t h; simp [keepIn, h]) ts
+
+/-! ### the statements about text, positions and language tokens
+
+  These three need the class invariant of `defs.py`: `ActionToken` and `LanguageToken` are
+  created with `txt = ''`.  `evalTok` treats an Action token as blank whatever its text, and a
+  Language token whose text contains a newline can start a line and is then emitted twice
+  (once trimmed, once through `langToks`). -/
+
+/-- no visible character is lost, duplicated, reordered or re-positioned (C02/C05).
+    `hc` is the class invariant of defs.py (ActionToken/LanguageToken are created with txt = '');
+    without it: `[text 0 "\n", action 1 "x", text 2 "\n"]` gives `[text 0 "\n"]`, losing `('x',1)`. -/
+theorem removeLines_nonblank (ts out : List Tok)
+    (hc : ∀ t ∈ ts, (isAction t = true ∨ isLang t = true) → t.txt = [])
+    (hr : removeLines ts = some out) :
+    nonBlankPairs (getTxtPos out) = nonBlankPairs (getTxtPos ts) :=
+  (removeLines_main ts out hc hr).1
+
+/-- the output text is the input text with some characters deleted (all of them white
+    space, by `removeLines_nonblank`).
+    `hc` is the class invariant of defs.py (ActionToken/LanguageToken are created with txt = '');
+    without it: `[lang 0 "x\n", action 2 "", text 2 "\n"]` gives text `"x\nx\n"`, no sublist of `"x\n\n"`. -/
+theorem removeLines_sublist (ts out : List Tok)
+    (hc : ∀ t ∈ ts, (isAction t = true ∨ isLang t = true) → t.txt = [])
+    (hr : removeLines ts = some out) :
+    List.Sublist (getTxtPos out).1 (getTxtPos ts).1 :=
+  (removeLines_main ts out hc hr).2.1
+
+/-- language tokens survive, in order (C12).
+    `hc` is the class invariant of defs.py (ActionToken/LanguageToken are created with txt = '');
+    without it: `[lang 0 "\n", action 1 "", text 1 "\n"]` gives the Language token twice. -/
+theorem removeLines_lang (ts out : List Tok)
+    (hc : ∀ t ∈ ts, (isAction t = true ∨ isLang t = true) → t.txt = [])
+    (hr : removeLines ts = some out) :
+    out.filter isLang = ts.filter isLang :=
+  (removeLines_main ts out hc hr).2.2
 
 end Yalafi
